@@ -257,6 +257,9 @@ def run(tier, r):
     violations += cv[:40]
     stats["coexisting_instances_checked"] = cn
     for fam, args in mem:
+        if oc.common.past_oracle_cap() or len(violations) >= 60:
+            stats["stopped_early"] = "deep-search time cap or enough violations"
+            break
         mseed = r.getrandbits(48)
         res, err = oc.guarded(check_member, fam, args, mseed)
         if err is not None:
